@@ -22,6 +22,7 @@ import (
 	"bytes"
 	"encoding/json"
 	"fmt"
+	"strings"
 )
 
 // didDocumentKeyMembers are the members of a DID document that hold verification methods (or references to them).
@@ -31,16 +32,30 @@ var didDocumentKeyMembers = []string{"verificationMethod", "authentication", "as
 // or in one of its verification relationship arrays. It is meant to be called on DID documents from untrusted sources before they are unmarshalled:
 // the DID library unmarshals such an entry to a nil pointer, which it dereferences while resolving references between the members,
 // in its validators and when marshalling the document.
+// Member names are matched the way encoding/json matches struct fields (case-insensitively) and every occurrence of a member is checked
+// (a document can hold a member more than once, also in different spellings).
 // Input that is not a JSON object is not an error here, unmarshalling it will report that.
 func RejectNullKeyEntries(document []byte) error {
-	var members map[string]json.RawMessage
-	if err := json.Unmarshal(document, &members); err != nil {
+	decoder := json.NewDecoder(bytes.NewReader(document))
+	if token, err := decoder.Token(); err != nil || token != json.Delim('{') {
 		return nil
 	}
-	for _, name := range didDocumentKeyMembers {
+	for decoder.More() {
+		nameToken, err := decoder.Token()
+		if err != nil {
+			return nil
+		}
+		name, _ := nameToken.(string)
+		var value json.RawMessage
+		if err = decoder.Decode(&value); err != nil {
+			return nil
+		}
+		if !isDIDDocumentKeyMember(name) {
+			continue
+		}
 		var entries []json.RawMessage
-		if err := json.Unmarshal(members[name], &entries); err != nil {
-			// absent, or not an array
+		if err = json.Unmarshal(value, &entries); err != nil {
+			// not an array
 			continue
 		}
 		for _, entry := range entries {
@@ -52,4 +67,13 @@ func RejectNullKeyEntries(document []byte) error {
 		}
 	}
 	return nil
+}
+
+func isDIDDocumentKeyMember(name string) bool {
+	for _, member := range didDocumentKeyMembers {
+		if strings.EqualFold(name, member) {
+			return true
+		}
+	}
+	return false
 }
